@@ -505,6 +505,8 @@ t_pkey(const uint8_t *data, size_t len)
 static int pem_in_obj, pem_data_outside, pem_err_seen;
 static void pem_dest(void *ctx, const void *src, size_t len) { (void)ctx; (void)src; (void)len; if (!pem_in_obj) pem_data_outside = 1; }
 
+static unsigned pem_nobj;
+
 static void
 t_pem(const uint8_t *data, size_t len)
 {
@@ -515,6 +517,7 @@ t_pem(const uint8_t *data, size_t len)
 	pc = malloc(sizeof *pc);
 	br_pem_decoder_init(pc);
 	pem_in_obj = pem_data_outside = pem_err_seen = 0;
+	pem_nobj = 1;
 	cst = data[0];
 	while (off < len) {
 		size_t k = next_chunk(&cst, len - off), done = 0;
@@ -532,7 +535,11 @@ t_pem(const uint8_t *data, size_t len)
 				if (pem_in_obj) fz_viol("status:pem-begin-inside-object", "BEGIN event inside an object");
 				pem_in_obj = 1;
 				if (memchr(br_pem_decoder_name(pc), 0, 128) == NULL) fz_viol("status:pem-name-unterminated", "object name not terminated");
-				br_pem_decoder_setdest(pc, pem_dest, NULL);
+				/* with the top bit of the first input byte: every second object is skipped by the caller
+				   (no destination: "decoded data is simply ignored") */
+				if ((data[0] & 0x80) && (pem_nobj & 1)) br_pem_decoder_setdest(pc, 0, 0);
+				else br_pem_decoder_setdest(pc, pem_dest, NULL);
+				pem_nobj ++;
 				break;
 			case BR_PEM_END_OBJ:
 				if (!pem_in_obj) fz_viol("status:pem-end-outside-object", "END event outside an object");
